@@ -111,13 +111,17 @@ def lazy(sym, name, N, nsym):
             k = sym.choice('k', N + 3)             # output rows requested (incl. header)
             it = iter(views[idx])
             out = [_norm(r) for r in itertools.islice(it, k)]
-            pulled, iters = src.pulls, max(src.iters, 1)
+            pulled, iters, single = src.pulls, max(src.iters, 1), src.maxpulls
         # (b) rows of the source needed by definition for these output rows
         need = _need(lambda pre: _first_rows(make, kind, idx, pre, k), data, k, out)
         # 'k plus a small constant': the catalogued look-ahead, and never less than SLACK rows, so that a
         # behaviour-preserving change that reads a row or two ahead is not an alarm
         check(pulled <= iters * (need + max(look, SLACK)),
               name + ': more source rows pulled than k outputs need (+ catalogued look-ahead)', k, out, pulled, need, look, iters)
+        # ... and no single source iterator (e.g. one opened only for an emptiness / length / header test) reads past
+        # the rows those outputs depend on
+        check(single <= need + max(look, SLACK),
+              name + ': one source iterator pulled more rows than k outputs need (+ catalogued look-ahead)', k, out, single, need, look)
 
 
 def display(sym, fn, N):
